@@ -73,7 +73,7 @@ def cases(tier, seed):
                 continue  # the largest world: eager and rendezvous sends with fully synchronising collectives
             case = dict(program=prog, size=size, max_workers=mw, send_mode=sm, coll_mode=cm,
                         baseline=base[prog], fixture=os.path.join(root, "fixture"))
-            if size == 4 and prog.startswith("create"):
+            if size == 4 and prog.startswith(("create", "refuse-")):
                 # three senders x three chunks racing for the writer: the matchings grow factorially; explored
                 # completely up to 3 deviations from the default matching (iterative context bounding)
                 case["bound"] = 3
